@@ -9,6 +9,7 @@ Specs: SolverContract (contract), ConeLP / ConeQP / CPL (faithful control models
  3. code -> spec: every run is a trace validated by TLC against the contract.
 """
 import json, os, random, multiprocessing as mp
+PMAP_TIMEOUT = int(__import__('os').environ.get('VERIF_PMAP_TIMEOUT', '300'))
 from harness import tlc, plants, soltrace
 from harness.core import Check
 
@@ -118,8 +119,10 @@ def run(tier, seed, replay=None):
     for I in qp_inst:
         cfgs = [qp_cfgs[0]] + ([rnd.choice(qp_cfgs[1:])] if quick else qp_cfgs[1:])
         jobs.append(("coneqp", I, cfgs))
-    with mp.Pool(16) as pool:
-        results = pool.map(_job, jobs, chunksize=2)
+    from harness.core import pmap
+    results = pmap(ck, _job, jobs, "c10", timeout=PMAP_TIMEOUT, chunksize=2)
+    if results is None:
+        ck.finish()
     runs = [r for rs in results for r in rs]
     # nonlinear solvers: cp / cpl / gp families, same enumeration
     from harness import nlsuite
@@ -138,8 +141,10 @@ def run(tier, seed, replay=None):
     # domain-restricted F that refuses trial points during the line search (fault-free runs; must backtrack, never raise)
     hard = nlsuite.hard_acent_cases(rnd, 40 if quick else 400)
     njobs += [(cs, [dict()], False) for cs in hard]
-    with mp.Pool(16) as pool:
-        nres = pool.map(nlsuite._run, njobs, chunksize=1)
+    from harness.core import pmap
+    nres = pmap(ck, nlsuite._run, njobs, "c10", timeout=PMAP_TIMEOUT, chunksize=1)
+    if nres is None:
+        ck.finish()
     for rs in nres:
         for r in rs:
             r["cfg"] = {k: v for k, v in r["cfg"].items()}
